@@ -200,6 +200,17 @@ PIXMAN_EXPORT pixman_image_t *
 pixman_image_ref (pixman_image_t *image)
 {
     image->common.ref_count++;
+#ifdef PIXMAN_VERIF
+    if (_pixman_verif_sink)
+    {
+	pixman_verif_ref_t ev;
+
+	ev.image = image;
+	ev.ref_count = image->common.ref_count;
+	ev.freed = 0;
+	PIXMAN_VERIF_EVENT ("Ref", &ev);
+    }
+#endif
 
     return image;
 }
@@ -210,9 +221,31 @@ pixman_image_unref (pixman_image_t *image)
 {
     if (_pixman_image_fini (image))
     {
+#ifdef PIXMAN_VERIF
+	if (_pixman_verif_sink)
+	{
+	    pixman_verif_ref_t ev;
+
+	    ev.image = image;
+	    ev.ref_count = 0;
+	    ev.freed = 1;
+	    PIXMAN_VERIF_EVENT ("Unref", &ev);
+	}
+#endif
 	free (image);
 	return TRUE;
     }
+#ifdef PIXMAN_VERIF
+    if (_pixman_verif_sink)
+    {
+	pixman_verif_ref_t ev;
+
+	ev.image = image;
+	ev.ref_count = image->common.ref_count;
+	ev.freed = 0;
+	PIXMAN_VERIF_EVENT ("Unref", &ev);
+    }
+#endif
 
     return FALSE;
 }
@@ -546,6 +579,9 @@ compute_image_info (pixman_image_t *image)
 void
 _pixman_image_validate (pixman_image_t *image)
 {
+#ifdef PIXMAN_VERIF
+    int verif_was_dirty = image->common.dirty;
+#endif
     if (image->common.dirty)
     {
 	compute_image_info (image);
@@ -560,6 +596,18 @@ _pixman_image_validate (pixman_image_t *image)
 
 	image->common.dirty = FALSE;
     }
+#ifdef PIXMAN_VERIF
+    if (_pixman_verif_sink)
+    {
+	pixman_verif_validate_t ev;
+
+	ev.image = image;
+	ev.was_dirty = verif_was_dirty;
+	ev.flags = image->common.flags;
+	ev.extended_format_code = image->common.extended_format_code;
+	PIXMAN_VERIF_EVENT ("Validate", &ev);
+    }
+#endif
 
     if (image->common.alpha_map)
 	_pixman_image_validate ((pixman_image_t *)image->common.alpha_map);
